@@ -14,6 +14,10 @@ Streams (implementation = harness/src/bin/loud.rs on the crate built from the tr
             item lands (bank without outp / without size, filled bank, default bank after a #bankdef, very end of a sized
             bank, past the end via #addr/#align, unaligned, zero-sized bank) x labels before/after x what follows; a share of
             it also goes through the driver and the real binary.
+            directed family `asm_span` (the full product on every run): an error inside text SUBSTITUTED into an asm body carries a
+            span laid over the file that holds the rule; rules in a short included file / at the very end of the file / followed
+            by multi-byte characters x 4 rules x 19 long argument texts (failing and valid); printing the report (library:
+            print_all into a buffer, driver, real binary: stderr) must not panic and must show the error.
             directed family `note_parent` (the full product on every run, budgets 1/2/10): an asm block that substitutes a
             local - so that eval_asm opens the Note `match attempted` - in every context an expression can stand in (constant,
             nested block, #res/#addr/#align/#assert/#if arguments, #d, #fn, instruction argument, #bankdef field) x what fails
@@ -44,7 +48,7 @@ from concurrent.futures import ThreadPoolExecutor
 import vlib
 import c03_gen as g
 
-RULE = ("library: directed note_parent family (19 expression contexts x 16 asm-block bodies with a substitution, x budgets 1/2/10); "
+RULE = ("library: directed asm_span family (10 file layouts x 4 substituting rules x 19 argument texts); directed note_parent family (19 expression contexts x 16 asm-block bodies with a substitution, x budgets 1/2/10); "
         "directed magnitude family (~60 numeric-hole templates x 62 machine-word extremes x spellings; left shifts by >= 2^31 or < 0 must fail); "
         "directed zero-size family (18 items x 20 bank situations x 4 label layouts x 3 continuations, all of them on every run); "
         "every tests/**/*.asm entry unmutated + token-level mutants (1..8 edits out of delete/duplicate/swap/replace token, spliced "
@@ -187,6 +191,9 @@ def build_library_cases(chk, bases):
         o["defines"] = []
         o["debug_iters"] = False
         cases.append({"base": label, "files": files, "entry": entry, "edits": [], "opts": o, "inline_all": True, "family": "zero"})
+    for (label, files, entry) in g.asm_span_family():
+        o = {"budget": 10, "static": True, "matcher": True, "debug_iters": False, "defines": []}
+        cases.append({"base": label, "files": files, "entry": entry, "edits": [], "opts": o, "inline_all": True, "family": "asm_span"})
     nr = rng.fork("note_parent")
     for (label, files, entry) in g.note_parent_family():
         for budget in (1, 2, 10):
@@ -223,10 +230,8 @@ def library_line(c):
 
 def known_class(case, what, known):
     """a violation inside a class listed as `known` in KNOWN_FINDINGS.json -> (id, text) else None"""
-    files = case["files"]
-    blob = b"\n".join(files.values())
-    if "bank_window_end_overflow" in known and "panick" in what and re.search(rb"#outp\s+(0x[fF_]{8,}|[\d_]{19,})", blob) and "output/mod.rs" in what:
-        return known["bank_window_end_overflow"]
+    # no input-text class is known for C03 at present (F48 / F61 / F62 are fixed in /repo: a fixed entry suppresses nothing);
+    # the process-level classes (standard_stream_unwritable) are matched where the real binary is judged
     return None
 
 
@@ -246,6 +251,10 @@ def stream_library(chk, lim, bins, bases, known):
         for k in c["edits"]:
             dist["edit_" + k] = dist.get("edit_" + k, 0) + 1
         dist["mutants" if c["edits"] else "unmutated"] += 1
+        if c.get("family") == "asm_span":
+            dist["asm_span_family"] = dist.get("asm_span_family", 0) + 1
+            if d.get("status") == "ok":
+                dist["asm_span_family_ok"] = dist.get("asm_span_family_ok", 0) + 1
         if c.get("family") == "note_parent":
             dist["note_parent_family"] = dist.get("note_parent_family", 0) + 1
             if d.get("status") == "ok":
@@ -341,6 +350,14 @@ def build_driver_cases(chk, bases, lib_cases, lib_out, formats):
         cmd.quiet = True
         cmd.groups[0]["out"] = "out.bin"
         cases.append(dict(c, cmd=cmd, faults=[], stream="driver", magnitude=True))
+    sp = [i for i, c in enumerate(lib_cases) if c.get("family") == "asm_span"]
+    spr = chk.rng.fork("driver-span")
+    for k, i in enumerate(sp if not quick else spr.shuffle(sp)[:450]):
+        c = lib_cases[i]
+        cmd = g.Cmd()
+        cmd.quiet = bool(k % 2)
+        cmd.color = (None, "off", "on")[k % 3]
+        cases.append(dict(c, cmd=cmd, faults=[], stream="driver", note_parent=True))      # same route as note_parent: driver + real binary
     seen_np = set()
     for i, c in enumerate(lib_cases):
         if c.get("family") == "note_parent" and c["base"] not in seen_np:
